@@ -232,7 +232,14 @@ class BaseCurve(Intface_BaseCurve):
         newknotvector += list(othercopy.knotvector)
         newknotvector = KnotVector(newknotvector, maxdegree)
         newctrlpoints = list(selfcopy.ctrlpoints) + list(othercopy.ctrlpoints)
-        newcurve = self.__class__(newknotvector, newctrlpoints)
+        newweights = None
+        if selfcopy.weights is not None or othercopy.weights is not None:
+            weights0 = selfcopy.weights or [1] * npts0
+            weights1 = othercopy.weights or [1] * othercopy.npts
+            # Scale both sets to the same weight at the junction
+            newweights = [weights1[0] * weight for weight in weights0]
+            newweights += [weights0[-1] * weight for weight in weights1]
+        newcurve = self.__class__(newknotvector, newctrlpoints, newweights)
         newcurve.knot_clean([umaxleft])
         return newcurve
 
